@@ -160,6 +160,12 @@ class Reference:
                     v = self.scope["offdiag"](self.ev(e, idx, name), idx)
                 else:
                     continue
+            elif cond == "lower":
+                # an explicit `if lower:` section ends the evaluation for blocks below the diagonal
+                # (this is how the hermitian / antihermitian markers are implemented, and it is documented)
+                if i > j:
+                    return add(res, self.ev(e, idx, name))
+                continue
             else:
                 v = self.ev(e, idx, name)
             res = add(res, v)
